@@ -21,7 +21,7 @@ mod c06;
 mod c14;
 
 fn main() {
-    mcx::engine::main(|prop, tier| match prop {
+    mcx::engine::main_promoted(&["C14"], |prop, tier| match prop {
         "C05" => Some(c05::def(tier)),
         "C06" => Some(c06::def(tier)),
         "C14" => Some(c14::def(tier)),
